@@ -15,6 +15,7 @@ func init() {
 const reqMu = "protocol/req.socket.Mutex"
 
 func runC03(p *Prog, r *Report) {
+	lockBalance(p, r, "C03.7/E1", "protocol/req", "protocol/xreq")
 	q := NewQ(p, r)
 	R := "C03.1/reply-matching"
 	r.Describe(R, "req receiver: id = BigEndian.Uint32 of the moved header word (len(Body) >= 4 checked), comma-ok lookup under the lock, hit => store reply + delete id (unconditionally), miss => free")
